@@ -574,7 +574,8 @@ func (t *FnTrans) appendBuiltin(x *ssa.Call, c *ssa.CallCommon, args []Val, st *
 		scalar(nil, newLen),
 		scalar(nil, ite(fits, s.Sub[3].S, fcap)),
 	}}
-	if es == "" || more.K != VSlice {
+	cds := t.flatComps(sl.Elem())
+	if (es == "" && len(cds) == 0) || more.K != VSlice {
 		// contents not tracked for composite elements
 		if es != "" {
 			comp := "B." + t.sortKey(sl.Elem())
@@ -586,61 +587,64 @@ func (t *FnTrans) appendBuiltin(x *ssa.Call, c *ssa.CallCommon, args []Val, st *
 		} else if isStructOrArray(sl.Elem()) {
 			t.note("append to a slice of structs: element contents abstracted")
 		} else {
-			// slice-of-slices etc: components
 			t.note("append to a slice of %s: element contents abstracted", sl.Elem())
 		}
 		t.setVal(x, res)
 		return
 	}
-	comp := "B." + t.sortKey(sl.Elem())
-	inner := arraySort(t.mode.idxSort(), es)
-	srt := arraySort("Int", inner)
-	arr := t.heapGet(st, comp, srt)
-	// constant number of appended elements?
+	// one heap component per flattened part of an element (a scalar element has
+	// one, a slice element four: base, offset, length, capacity)
 	k, isConst := constLen(t, more)
-	// fresh array content: copy of the old prefix (quantified hypothesis, instantiated in phase 2)
-	freshArr := t.declare(t.fresh("appendarr"), inner)
-	oldInner := sx("select", arr, s.Sub[0].S)
-	oldOff := s.Sub[1].S
-	oldLen := s.Sub[2].S
-	t.assumps = append(t.assumps, Assump{Guard: reach, Why: "append: fresh backing array starts with the old contents", F: Formula{Lazy: func() string {
-		var parts []string
-		for _, c := range t.candidates(z, oldLen) {
-			parts = append(parts, implies(and(t.cmpIdx("<=", z, c), t.cmpIdx("<", c, oldLen)), eq(sx("select", freshArr, c), sx("select", oldInner, t.addIdx(oldOff, c)))))
-		}
-		return and(parts...)
-	}}})
 	base := res.Sub[0].S
 	off := res.Sub[1].S
-	curInner := ite(fits, oldInner, freshArr)
-	if isConst && k <= 16 {
-		moreInner := sx("select", arr, more.Sub[0].S)
-		for j := 0; j < k; j++ {
-			jv := t.mode.intLit64(int64(j), 64)
-			src := sx("select", moreInner, t.addIdx(more.Sub[1].S, jv))
-			dst := t.addIdx(off, t.addIdx(oldLen, jv))
-			t.elemIdx[dst] = true
-			curInner = sx("store", curInner, dst, src)
-		}
-		t.heapSet(st, comp, srt, sx("store", arr, base, curInner))
-	} else {
-		// variable tail: new inner array agrees with the old one below oldLen and with `more` above
-		na := t.declare(t.fresh("appendarr"), inner)
-		moreInner := sx("select", arr, more.Sub[0].S)
-		moreOff := more.Sub[1].S
-		t.assumps = append(t.assumps, Assump{Guard: reach, Why: "append: result contents", F: Formula{Lazy: func() string {
+	oldOff := s.Sub[1].S
+	oldLen := s.Sub[2].S
+	for _, cd := range cds {
+		cd := cd
+		comp := "B." + t.sortKey(sl.Elem()) + cd.suffix
+		inner := arraySort(t.mode.idxSort(), cd.sort)
+		srt := arraySort("Int", inner)
+		arr := t.heapGet(st, comp, srt)
+		// fresh array content: copy of the old prefix (quantified hypothesis, instantiated in phase 2)
+		freshArr := t.declare(t.fresh("appendarr"), inner)
+		oldInner := sx("select", arr, s.Sub[0].S)
+		t.assumps = append(t.assumps, Assump{Guard: reach, Why: "append: fresh backing array starts with the old contents", F: Formula{Lazy: func() string {
 			var parts []string
-			for _, c := range t.candidates(z, newLen) {
-				inOld := and(t.cmpIdx("<=", z, c), t.cmpIdx("<", c, oldLen))
-				inNew := and(t.cmpIdx("<=", oldLen, c), t.cmpIdx("<", c, newLen))
-				at := sx("select", na, t.addIdx(off, c))
-				parts = append(parts, implies(inOld, eq(at, sx("select", curInner, t.addIdx(off, c)))))
-				parts = append(parts, implies(inNew, eq(at, sx("select", moreInner, t.addIdx(moreOff, t.subIdx(c, oldLen))))))
+			for _, c := range t.candidates(z, oldLen) {
+				parts = append(parts, implies(and(t.cmpIdx("<=", z, c), t.cmpIdx("<", c, oldLen)), eq(sx("select", freshArr, c), sx("select", oldInner, t.addIdx(oldOff, c)))))
 			}
 			return and(parts...)
 		}}})
-		t.heapSet(st, comp, srt, sx("store", arr, base, na))
-		t.note("append with a variable-length tail: elements outside [0,newLen) of the backing array abstracted")
+		curInner := ite(fits, oldInner, freshArr)
+		if isConst && k <= 16 {
+			moreInner := sx("select", arr, more.Sub[0].S)
+			for j := 0; j < k; j++ {
+				jv := t.mode.intLit64(int64(j), 64)
+				src := sx("select", moreInner, t.addIdx(more.Sub[1].S, jv))
+				dst := t.addIdx(off, t.addIdx(oldLen, jv))
+				t.elemIdx[dst] = true
+				curInner = sx("store", curInner, dst, src)
+			}
+			t.heapSet(st, comp, srt, sx("store", arr, base, curInner))
+		} else {
+			// variable tail: new inner array agrees with the old one below oldLen and with `more` above
+			na := t.declare(t.fresh("appendarr"), inner)
+			moreInner := sx("select", arr, more.Sub[0].S)
+			moreOff := more.Sub[1].S
+			t.assumps = append(t.assumps, Assump{Guard: reach, Why: "append: result contents", F: Formula{Lazy: func() string {
+				var parts []string
+				for _, c := range t.candidates(z, newLen) {
+					inOld := and(t.cmpIdx("<=", z, c), t.cmpIdx("<", c, oldLen))
+					inNew := and(t.cmpIdx("<=", oldLen, c), t.cmpIdx("<", c, newLen))
+					at := sx("select", na, t.addIdx(off, c))
+					parts = append(parts, implies(inOld, eq(at, sx("select", curInner, t.addIdx(off, c)))))
+					parts = append(parts, implies(inNew, eq(at, sx("select", moreInner, t.addIdx(moreOff, t.subIdx(c, oldLen))))))
+				}
+				return and(parts...)
+			}}})
+			t.heapSet(st, comp, srt, sx("store", arr, base, na))
+			t.note("append with a variable-length tail: elements outside [0,newLen) of the backing array abstracted")
+		}
 	}
 	t.setVal(x, res)
 }
